@@ -1,6 +1,7 @@
 """Per-property level and explanation strings used in the evidence files."""
-LEVELS = {"C02": "proof", "C03": "proof", "C16": "proof", "C18": "other", "C10": "other", "C11": "proof", "C09": "other", "C19": "other", "C05": "other", "C07": "other", "C04": "other", "C12": "other", "C01": "other", "C13": "other", "C15": "other"}
+LEVELS = {"C02": "proof", "C03": "proof", "C16": "proof", "C18": "other", "C10": "other", "C11": "proof", "C09": "other", "C19": "other", "C05": "other", "C07": "other", "C04": "other", "C12": "other", "C01": "other", "C13": "other", "C15": "other", "C17": "other"}
 EXPLAIN = {
+    "C17": "registration (R1) and single-reference resolution (R2) contracts: discharged; order independence / typing's evaluator / local scopes not decided",
     "C13": "table lemmas (validator accepts => keyword holds) and the bounded object-structure contract: discharged; whole-document validity, $defs, encoder, nested values not decided",
     "C15": "table lemmas for the parser direction: discharged; building arbitrary schemas without crash and whole-schema validity of instances not decided",
     "C12": "flag-dependent promises of the contracted converters / parsers: discharged except the listed known finding; the subset clause and date/time converters are not decided",
